@@ -347,6 +347,19 @@ func (w *World) Counter(key string) int {
 	return w.counters[key]
 }
 
+// Probes returns the counters whose key starts with "probe:" (reach probes set inside simrt).
+func (w *World) Probes() map[string]int {
+	w.mu.Lock()
+	defer w.mu.Unlock()
+	m := map[string]int{}
+	for k, v := range w.counters {
+		if len(k) > 6 && k[:6] == "probe:" {
+			m[k[6:]] = v
+		}
+	}
+	return m
+}
+
 // GSeq returns a stable identifier for "the n-th <what> done by the calling
 // goroutine": goroutine names are stable (parent/index), and one goroutine's own
 // sequence of actions is deterministic, whereas a counter shared by several
